@@ -2,7 +2,7 @@
    model side of the correspondence lives here (in Gallina); the OCaml driver is generic. *)
 From Coq Require Import Strings.String.
 From ZipV Require Import Base.Bytes Base.Outcome Gen.GenLib Gen.TypesGen Model.Dos Extract.Obs.
-From ZipV Require Import Spec.PathSpec Model.Path Spec.Utf8 Model.Cp437 Gen.CompressionGen Model.Readers Model.Reader Spec.Crc32Spec Model.Stream.
+From ZipV Require Import Spec.PathSpec Model.Path Spec.Utf8 Model.Cp437 Gen.CompressionGen Model.Readers Model.Reader Spec.Crc32Spec Model.Stream Spec.Aes Spec.Sha1.
 Open Scope string_scope.
 Open Scope N_scope.
 
@@ -91,31 +91,29 @@ Fixpoint read_loop {S} (rd : reader S) (fuel : nat) (s : S) (n : N) (acc : bytes
       end
   end.
 
-Definition entry_obs (data : bytes) (i : N) (pw : option bytes) (bufsize : N) : obs :=
+Definition entry_obs_gen (skip_aes : bool) (kdf : bytes -> bytes -> N -> bytes) (blk mac : bytes -> bytes -> bytes)
+    (data : bytes) (i : N) (pw : option bytes) (bufsize : N) : obs :=
   match open data with
   | Err e => OL [T "OpenErr"; err_obs e]
   | Panic p => OL [T "PANIC"; site_obs p]
   | Ok ar =>
-      if match nth_error (ar_files ar) (N.to_nat i), pw with
+      if skip_aes && match nth_error (ar_files ar) (N.to_nat i), pw with
          | Some f, Some _ => f_encrypted f && opt_is_some (f_aes f)
          | _, _ => false end
       then T "SKIP-AES" else
-      match by_index_opt dummy_kdf ar i pw with
+      match by_index_opt kdf ar i pw with
       | Err e => OL [T "Err"; err_obs e]
       | Panic p => OL [T "PANIC"; site_obs p]
       | Ok None => match pw with None => OL [T "Err"; err_obs (EUnsupported MPasswordRequired)] | Some _ => T "InvalidPassword" end
       | Ok (Some (f, ds, c)) =>
           let m := meta_obs f ds in
-          match c with
-          | CAes _ _ => OL [T "Ok"; m; T "SKIP"]
-          | _ =>
-              if CompressionMethod_eqb (f_method f) CompressionMethod_Stored then
-                OL [T "Ok"; m; read_loop (zipfile_read dummy_blk dummy_mac crc32) (Datatypes.S (length data)) (make_stored f c) bufsize []]
-              else if method_supported (f_method f) then OL [T "Ok"; m; T "SKIP"]
-              else OL [T "Ok"; m; OL [T "PANIC"; site_obs PMethodNotSupported]]
-          end
+          if CompressionMethod_eqb (f_method f) CompressionMethod_Stored then
+            OL [T "Ok"; m; read_loop (zipfile_read blk mac crc32) (Datatypes.S (length data)) (make_stored f c) bufsize []]
+          else if method_supported (f_method f) then OL [T "Ok"; m; T "SKIP"]
+          else OL [T "Ok"; m; OL [T "PANIC"; site_obs PMethodNotSupported]]
       end
   end.
+Definition entry_obs := entry_obs_gen true dummy_kdf dummy_blk dummy_mac.
 
 (* ---------- scheduled reads (C09) *)
 Definition set_src_plan (t : take_st src) (p : list pev) : take_st src :=
@@ -236,6 +234,15 @@ Definition dispatch_reader (op : bytes) (args : list arg) : option obs :=
   else if is_op op "entry" then
     match args with
     | [AB data; AN i; AN haspw; AB pw; AN bufsize] => Some (entry_obs data i (if N.eqb haspw 0%N then None else Some pw) bufsize)
+    | _ => None end
+  else if is_op op "aes_entry" then
+    match args with
+    | [AB data; AN i; AB pw; AB dk; AN bufsize] =>
+        Some (entry_obs_gen false (fun _ _ _ => dk) aes_encrypt hmac_sha1 data i (Some pw) bufsize)
+    | _ => None end
+  else if is_op op "kdf" then
+    match args with
+    | [AB pw; AB salt; AN c; AN n] => Some (OB (pbkdf2_sha1 pw salt (N.to_nat c) n))
     | _ => None end
   else if is_op op "entry_sched" then
     match args with
